@@ -372,6 +372,16 @@ def cbgrow_source(di, at, grows):
     return pre + "fn run() { %s }\nrun();\nprint('calls', calls > 0);\nprint('done');\n" % CG_DRIVERS[di][1]
 
 
+# instances of std-lib classes keep their state in ordinary fields: every value kind assigned to every such field, then every method
+FS_TARGETS = [("regexp.RegExp('a+')", ["pattern", "flags"], ["test('aa')", "match('aa')", "captures('aa')", "matchAll('aa').list()", "str()"]),
+              ("Error('m', Error('in'))", ["message", "inner", "backTrace"], ["str()", "message.str()", "cls().name()"])]
+
+
+def fieldset_source(ti, field, arg, mi):
+    ctor, fields, methods = FS_TARGETS[ti]
+    return "let o = %s; print('M2'); o.%s = %s; try { print(o.%s); } catch e { print('caught', e.cls().name()); } print('done');" % (ctor, field, arg, methods[mi])
+
+
 def cberr_source(driver, site, at, place):
     d = dict(CB_DRIVERS)[driver]
     st = dict(CB_SITES)[site]
@@ -457,6 +467,11 @@ class C16(Check):
                 for mi in range(len(muts)):
                     for k in (0, 1, 3):
                         yield ("mutiter", coll, di, mi, k)
+        for ti, (ctor, fields, methods) in enumerate(FS_TARGETS):
+            for f in fields:
+                for a in ARGS:
+                    for mi in range(len(methods)):
+                        yield ("fieldset", ti, f, a, mi)
         for di in range(len(CG_DRIVERS)):
             for at in (1, 2, 3):
                 yield ("cbgrow", di, at)
@@ -508,6 +523,8 @@ class C16(Check):
             return PRE + "print('M'); " + cberr_source(spec[1], spec[2], spec[3], "same")
         if k == "catchcls":
             return PRE + "print('M'); " + catchcls_source(*spec[1:])
+        if k == "fieldset":
+            return PRE + "print('M'); " + fieldset_source(*spec[1:])
         if k == "cbgrow":
             return PRE + "print('M'); " + cbgrow_source(spec[1], spec[2], True)
         if k == "launchkinds":
